@@ -132,7 +132,9 @@ def run_case(case: dict) -> dict:
                 return res
         if "crosstalk" in (case.get("exclude") or []):
             labels = {n: k for k, v in obs.inputs.items() for n in v}
-            if crosstalk_sites(w, [], labels, memory_ok=True):
+            from ..static_trigger import crosstalk_possible
+
+            if crosstalk_sites(w, [], labels, memory_ok=True) and crosstalk_possible(stmts, case["inputs"]):
                 res["status"] = "excluded"
                 res["excluded_by"] = "crosstalk"
                 return res
